@@ -4,6 +4,7 @@ C08 — entity pose follows the position packets addressed to it.
 import ReplayModel.World
 import ReplayProofs.Lemmas.World
 import ReplayProofs.C05
+import ReplayProofs.Lemmas.Bytes
 namespace ReplayModel.C08
 open ReplayModel
 
@@ -231,5 +232,23 @@ theorem entity_history (cfg : Config) (hg : cfg.dialect.game ≠ .wowp) (id : Na
       refine ⟨e', h1, h2, h3, ?_, ?_, h6, h7⟩
       · rw [h4, C05.writesTo_other e.view id p ps ht]
       · rw [h5, posesTo_other id p ps ht]
+
+/-! ### the vehicle field of a position packet -/
+
+/-- **The vehicle field of a position packet is not interpreted**: two payloads that differ only in
+bytes 4..8 (the id of the vehicle the entity rides on) deserialise to the same packet, hence
+have the same effect — the pose set is the one the packet carries, for the entity it addresses. -/
+theorem position_vehicle_irrelevant (jsonOk : Bytes → Bool) (idb v1 v2 rest : Bytes)
+    (hid : idb.length = 4) (h1 : v1.length = 4) (h2 : v2.length = 4) :
+    deserialize jsonOk .position (idb ++ v1 ++ rest) = deserialize jsonOk .position (idb ++ v2 ++ rest) := by
+  have e1 : readIntLE 4 (idb ++ v1 ++ rest) = .ok (toSigned 4 (leNat idb), v1 ++ rest) := by
+    simp [readIntLE, List.append_assoc, readN_append 4 idb (v1 ++ rest) hid, bind, Except.bind, pure, Except.pure]
+  have e2 : readIntLE 4 (idb ++ v2 ++ rest) = .ok (toSigned 4 (leNat idb), v2 ++ rest) := by
+    simp [readIntLE, List.append_assoc, readN_append 4 idb (v2 ++ rest) hid, bind, Except.bind, pure, Except.pure]
+  have f1 : readIntLE 4 (v1 ++ rest) = .ok (toSigned 4 (leNat v1), rest) := by
+    simp [readIntLE, readN_append 4 v1 rest h1, bind, Except.bind, pure, Except.pure]
+  have f2 : readIntLE 4 (v2 ++ rest) = .ok (toSigned 4 (leNat v2), rest) := by
+    simp [readIntLE, readN_append 4 v2 rest h2, bind, Except.bind, pure, Except.pure]
+  simp only [deserialize, e1, e2, f1, f2, bind, Except.bind]
 
 end ReplayModel.C08
